@@ -2,8 +2,10 @@ SPECIFICATION Spec
 CONSTANTS
   Classes <- AllClasses
   Focuses = {"paths", "forward_dests", "hls_sessions", "hls_muxers", "rtsp_conns", "rtsp_sessions", "rtsps_conns", "rtsps_sessions", "rtmp_conns", "rtmps_conns", "srt_conns", "webrtc_sessions", "moq_sessions", "all"}
-  Counts = {2}
-  Filters = {"none"}
+  Counts = {1, 2}
+  Filters = {"none", "type", "path"}
+  TwoFocuses = {"paths", "forward_dests", "hls_sessions", "hls_muxers", "rtsp_sessions", "srt_conns", "all"}
 INVARIANT ModelSane
 INVARIANT EmitCases
+INVARIANT EmitParserTests
 CHECK_DEADLOCK FALSE
